@@ -459,6 +459,25 @@ def r11_optional_data_attributes(idx, r):
         raise AnchorMissing("getTotalScatterMatrix: arithmetic on an optional scattering matrix")
 
 
+def r12_same_normalisation_both_sides(idx, r):
+    """getISOTXSLibrariesToMerge drops the plain library `ISOAA` when a suffixed `ISOAA-<suffix>` is present (merging both would merge the same
+    nuclide labels twice, which is refused).  The file names come from glob with their directory: the equality that recognises the pair must
+    compare base name with base name - comparing the full path of one with the base name of the other never matches."""
+    f = idx.func(LIBS + ".getISOTXSLibrariesToMerge")
+    n = 0
+    for c in [x for x in ast.walk(f.node) if isinstance(x, ast.Compare) and len(x.ops) == 1 and isinstance(x.ops[0], (ast.Eq, ast.NotEq))]:
+        sides = [c.left, c.comparators[0]]
+        based = [any(isinstance(y, ast.Call) and dotted(y.func) == "os.path.basename" for y in ast.walk(sd)) for sd in sides]
+        if any(based):
+            n += 1
+            other = sides[1 - based.index(True)] if based.count(True) == 1 else None
+            r.require(all(based) or (other is not None and isinstance(other, ast.Constant)), f"dedupe:{norm(c)[:50]}:basename-on-both-sides", f, node=c,
+                      msg=f"`{norm(c)}` compares a base name with `{norm(other) if other is not None else ''}` as it is: with the full paths mergeXSLibrariesInWorkingDirectory passes, `ISOAA` is not recognised "
+                          "as shadowed by `ISOAA-<suffix>`, both are selected and the merge of the two is refused")
+    if n < 1:
+        raise AnchorMissing("getISOTXSLibrariesToMerge: comparison with os.path.basename(...)")
+
+
 def run(idx, chk):
     chk.explanation = (
         "C10: metadata/collection merges never write into their inputs and raise on conflicts; direct stores into the target library happen only "
@@ -487,3 +506,5 @@ def run(idx, chk):
                  necessary="a rejected merge leaves the target library (metadata included) unchanged")
     chk.run_rule("R10.11", "merge's emptiness tests leave out bookkeeping only; optional matrices enter arithmetic behind their None test", lambda r: r11_optional_data_attributes(idx, r), floor=2,
                  necessary="a merge never silently drops data; derived sums skip, not crash on, what a library does not carry")
+    chk.run_rule("R10.12", "the plain/suffixed library pairing compares base names on both sides", lambda r: r12_same_normalisation_both_sides(idx, r), floor=1,
+                 necessary="a directory holding ISOxx and ISOxx-<suffix> merges to the suffixed data, without a refused double merge")
